@@ -2116,7 +2116,7 @@ Proof. vm_compute. reflexivity. Qed.
 
 (* comment elision exercises the checked slice s[written:cs] *)
 Example escape_text_comment :
-  escape_text false ctx0 (B "a<!-- c --><b>") = EOk (mkctx StTag DNone (B "b") [] [] [] false [] None [] []) true (B "a<b").
+  escape_text false ctx0 (B "a<!-- c --><b>") = EOk (mkctx StText DNone (B "b") [] [] [] false [] None [] []) true (B "a<b>").
 Proof. vm_compute. reflexivity. Qed.
 
 Example js_balanced_examples :
